@@ -562,7 +562,7 @@ PROPS = {
         "timeout_quick": 1200,
         "theories": ["theories/Base.v", "theories/Store.v", "theories/StoreProofs.v", "theories/Pool.v", "theories/PoolProofs.v",
                      "theories/BalanceProofs.v", "theories/Conc.v", "theories/ConcProofs.v", "theories/SerialProofs.v",
-                     "theories/Snapshot.v", "theories/SnapshotProofs.v", "theories/NonceProofs.v", "gen/Facts.v", "theories/Locks.v", "theories/LocksProofs.v", "gen/Facts.v"],
+                     "theories/Snapshot.v", "theories/SnapshotProofs.v", "theories/NonceProofs.v", "gen/Facts.v", "theories/Locks.v", "theories/LocksProofs.v", "gen/Facts.v", "theories/SerialFull.v"],
         "check_theories": ["theories/Check10.v"],
         "level_text": "Four parts of different strength. (a) Store operations are atomic: computed obligations over "
                       "facts regenerated from the sources (every in-memory method takes the mutex, Lock then deferred "
@@ -580,7 +580,7 @@ PROPS = {
                       "balance they return and re-reading it after later writes, compared in-kernel with the model. "
                       "PARTIAL: absence of data races is runtime behaviour no Gallina model exhibits; it is searched "
                       "for with the race detector on the concurrent workloads (memory/badger keep-alives, balance "
-                      "updates, withdrawals, registry connect/close/peer, Remote calls). The per-node update lock: keyed-lock model (Locks.v) with mutual exclusion and progress theorems, the entry-removing variant refuted (and shown indistinguishable with only two requests), lock shape facts regenerated from pool/service.go; pool-level snapshot histories; chains of three overlapping keep-alives forced through a gate store.",
+                      "updates, withdrawals, registry connect/close/peer, Remote calls). The per-node update lock: keyed-lock model (Locks.v) with mutual exclusion and progress theorems, the entry-removing variant refuted (and shown indistinguishable with only two requests), lock shape facts regenerated from pool/service.go; pool-level snapshot histories; chains of three overlapping keep-alives forced through a gate store. Serialisability proper (SerialFull.v): for any number of keep-alives of pairwise distinct nodes and any interleaving of their store actions that completes them, the final node records, peer sets, links and balances are those of a one-at-a-time execution in the order of the UpdatePeers actions (phase invariant + characterisation; each request alone = its UpdatePeers followed by its credits).",
         "level_note": "Trusted: Coq kernel; Go's sync.Mutex and memory model; badger's snapshot isolation and conflict "
                       "detection; the AST-based lock/transaction shape extractors; the race detector only sees the "
                       "schedules that happen to run.",
